@@ -38,4 +38,8 @@ def pathFns : List String :=
 def noPathWrites : Bool :=
   Gen.sharedWrites.all fun s => s.inOnce || !(pathFns.contains s.fn || s.fn.startsWith "render")
 
+/-- the only synchronisation objects held by goldmark are the three `sync.Once` guards: a new mutex, `sync.Map`,
+    `sync.Pool` or atomic cell in a long-lived struct or package variable is new shared mutable state -/
+def onlyOnceGuards : Bool := Gen.syncDecls.all fun d => d.2.2.2 == "sync.Once"
+
 end GM.Spec
